@@ -99,7 +99,8 @@ def check_render(ctx, cell, fields, asgi, leg, site='responder', own_vary=None):
     f.code = (fields.code if fields.code is not None else 42) if e['code'] else None
     f.href = (fields.href or 'http://example.com/help') if e['link'] else None
     f.href_text = fields.href_text if e['link'] else None
-    ex, res, hs = H.render_case(accept, cell['xmlOn'], extra, f, asgi=asgi, site=site, own_vary=own_vary)
+    ex, res, hs = H.render_case(accept, cell['xmlOn'], extra, f, asgi=asgi, site=site, own_vary=own_vary,
+                                shape=e.get('shape', 'plain'), ctor=e.get('ctor'), status=e['status'])
     case = {'leg': leg, 'iface': 'asgi' if asgi else 'wsgi', 'site': site, 'own_vary': own_vary, 'accept': accept, 'xmlOn': cell['xmlOn'], 'extra': extra,
             'err': e, 'fields': vars(f), 'spec': out}
     if res.exc is not None or ex is None:
@@ -109,7 +110,9 @@ def check_render(ctx, cell, fields, asgi, leg, site='responder', own_vary=None):
         ctx.violation('P4:protocol', case, 'protocol errors %r' % (res.errors,))
         return None, case
     obs = observe_render(ex, res, hs, own_vary)
-    case['obs'] = {k: obs[k] for k in ('status', 'kind', 'ctype', 'vary', 'fields')}
+    obs['own'] = H.own_observed(res)
+    obs['shape'] = e.get('shape', 'plain')
+    case['obs'] = {k: obs[k] for k in ('status', 'kind', 'ctype', 'vary', 'fields', 'own')}
     case['ex'] = ex
     return obs, case
 
@@ -122,7 +125,9 @@ def compare_render(ctx, cell, obs, case):
     clause = None
     if obs['status'] != out['status']:
         clause, what = 'P4:render-status', 'status %r, the error carries %r' % (obs['status'], out['status'])
-    elif not obs['vary']:
+    elif sorted((h['name'], h['value']) for h in obs['own']) != sorted((h['name'], h['value']) for h in out.get('own', [])):
+        clause, what = 'P4:ownheaders', 'constructor-derived headers %r, specified %r' % (obs['own'], out.get('own', []))
+    elif out.get('vary', True) and not obs['vary']:
         clause, what = 'P4:vary', 'Vary lacks the token Accept or a token of the error\'s own Vary header'
     elif out['kind'] != 'none' and obs['kind'] != out['kind']:
         clause, what = 'P4:negotiation', 'body representation %r, negotiated %r (%s)' % (obs['kind'], out['kind'], mt_text(out['ctype']))
@@ -145,9 +150,11 @@ def unfaithful(ex, obs):
     if obs['doc'] is None:
         return None
     want = H.expected_doc(ex)
+    if obs['kind'] in ('json', 'media'):       # representations built from what to_dict() of the raised instance returns
+        want = H.reshape(want, obs.get('shape', 'plain'))
     if obs.get('flat'):         # a flat form cannot carry the nested link: compare the scalar fields as text
-        want = {k: str(v) for k, v in want.items() if k != 'link'}
-        got = {k: v for k, v in obs['doc'].items() if k != 'link'}
+        want = {k: str(v) for k, v in want.items() if k not in ('link', 'problems')}
+        got = {k: v for k, v in obs['doc'].items() if k not in ('link', 'problems')}
     else:
         got = obs['doc']
     if obs['kind'] == 'xml' and not all(H.xml_expressible(s) for s in (ex.title, ex.description, (ex.link or {}).get('text'))):
@@ -155,6 +162,30 @@ def unfaithful(ex, obs):
     if got != want:
         return 'body decodes to %r, the error holds %r' % (got, want)
     return None
+
+
+def random_ctor(rng):
+    """Abstract constructor arguments beyond the enumerated table: (status, ctor)."""
+    k = rng.choice(['none', 'none', 'retry', 'allow', 'range', 'challenge', 'location'])
+    c = dict(H.NO_CTOR)
+    c['kind'] = k
+    if k == 'none':
+        return 422, c
+    if k == 'retry':
+        c['date'] = rng.random() < 0.25
+        c['n'] = -1 if c['date'] else rng.choice([-1, 0, 0, 1, 2, 30, 86400])
+        return rng.choice([413, 429, 503]), c
+    if k == 'allow':
+        c['items'] = rng.sample(['GET', 'HEAD', 'POST', 'PUT', 'PATCH', 'DELETE', 'OPTIONS'], rng.randint(0, 4))
+        return 405, c
+    if k == 'range':
+        c['n'] = rng.choice([0, 0, 1, 7, 4096, 2000000000])
+        return 416, c
+    if k == 'challenge':
+        c['items'] = rng.sample(['Basic realm="r"', 'Bearer', 'Digest realm="r", nonce="n"', 'Newauth'], rng.randint(0, 3))
+        return 401, c
+    c['loc'] = rng.choice(['/p', '/caf<e9> "q"?a=b&c=d e', 'http://example.com/a?b=c&d=%41', '//host/x y'])
+    return rng.choice([301, 302, 303, 307, 308]), c
 
 
 def random_accept(rng):
@@ -198,6 +229,9 @@ def run(ctx):
     rt = ctx.tlc('MC_ErrorRender', ctx.pick('MC_ErrorRenderQ.cfg', 'MC_ErrorRender.cfg'), coverage=True, workers=2, timeout=300)
     H.require_actions(rt, ['XRenderError'])
     table = list({digest(c): c for c in rt.json}.values())
+    rc = ctx.tlc('MC_ErrorRender', 'MC_ErrorRenderC.cfg', coverage=True, workers=2, timeout=300)
+    H.require_actions(rc, ['XRenderError'])
+    ctable = list({digest(c): c for c in rc.json}.values())
     ctx.progress('leg M done: %d + %d distinct states, %d rendering cells' % (r.distinct, rt.distinct, len(table)))
 
     # ---- leg A: pipeline behaviours --------------------------------------------------------------
@@ -242,6 +276,21 @@ def run(ctx):
     ctx.traces_validated += n
     ctx.progress('leg A (rendering table): %d replays' % n)
 
+    # ---- leg A: error classes (to_dict overrides, header-bearing constructors, redirects) x raise sites ----------
+    n = 0
+    sites = ['responder', 'hook', 'mw', 'render']
+    for ci, cell in enumerate(ctable):
+        frng = random.Random(int(digest(cell), 16) ^ ctx.seed)
+        for asgi in (False, True):
+            site = sites[(ci + asgi + frng.randrange(4)) % 4]
+            obs, case = check_render(ctx, cell, H.Fields(frng, 1), asgi, 'A-render', site, OWN_VARY[frng.randrange(5)])
+            ctx.case(case, nontrivial=True, key=digest([cell, asgi, site]))
+            n += 1
+            if obs is not None:
+                compare_render(ctx, cell, obs, case)
+    ctx.traces_validated += n
+    ctx.progress('leg A (error classes table): %d replays' % n)
+
     # ---- leg B: random registries ------------------------------------------------------------------
     items = []
     for k in range(ctx.pick(4000, 120000)):
@@ -267,10 +316,13 @@ def run(ctx):
     tag = {'t': 'application', 's': 'x-verif-tag'}
     axml = {'t': 'application', 's': 'xml'}
     for k in range(ctx.pick(2500, 40000)):
+        st, ctor = random_ctor(rng)
         cell = {'acc': random_accept(rng), 'xmlOn': rng.random() < 0.7, 'extra': rng.choice([[], [tag], [axml], [tag, axml]]),
-                'err': {'status': 422, 'desc': rng.random() < 0.5, 'code': rng.random() < 0.5, 'link': rng.random() < 0.5},
+                'err': {'status': st, 'desc': rng.random() < 0.5, 'code': rng.random() < 0.5, 'link': rng.random() < 0.5,
+                        'shape': rng.choice(['plain', 'plain', 'adds', 'drops', 'renames']) if ctor['kind'] == 'none' else 'plain',
+                        'ctor': ctor},
                 'out': {'status': 422, 'kind': '?', 'ctype': {'t': '', 's': ''}, 'fields': []}}
-        obs, case = check_render(ctx, cell, H.Fields(rng, 1), bool(k & 1), 'B-render', rng.choice(['responder', 'render']),
+        obs, case = check_render(ctx, cell, H.Fields(rng, 1), bool(k & 1), 'B-render', rng.choice(['responder', 'render', 'hook', 'mw']),
                                   rng.choice(OWN_VARY))
         ctx.case(case, nontrivial=not cell['acc']['absent'], key=digest(case['obs'] if obs else k))
         if obs is None:
@@ -280,7 +332,7 @@ def run(ctx):
         if bad:
             ctx.violation('P4:faithful', case, bad)
         t = {'acc': cell['acc'], 'xmlOn': cell['xmlOn'], 'extra': cell['extra'], 'err': cell['err'],
-             'obs': {'status': obs['status'], 'kind': obs['kind'], 'ctype': obs['ctype'], 'vary': obs['vary'],
+             'obs': {'status': obs['status'], 'kind': obs['kind'], 'ctype': obs['ctype'], 'vary': obs['vary'], 'own': obs['own'],
                      'fields': [] if obs.get('flat') else obs['fields'], 'flat': bool(obs.get('flat'))}}
         traces.append(t)
         cases.append(case)
@@ -310,9 +362,13 @@ def replay(ctx, case):
         for k, v in case['fields'].items():
             setattr(f, k, v)
         ex, res, hs = H.render_case(case['accept'], case['xmlOn'], case['extra'], f, asgi=case['iface'] == 'asgi',
-                                    site=case.get('site', 'responder'), own_vary=case.get('own_vary'))
+                                    site=case.get('site', 'responder'), own_vary=case.get('own_vary'),
+                                    shape=case['err'].get('shape', 'plain'), ctor=case['err'].get('ctor'),
+                                    status=case['err']['status'])
         print('status:', res.status, 'headers:', res.headers, '\nbody:', res.body, '\nexc:', res.exc)
         obs = observe_render(ex, res, hs, case.get('own_vary'))
+        obs['own'] = H.own_observed(res)
+        obs['shape'] = case['err'].get('shape', 'plain')
         print('observed:', {k: obs[k] for k in ('status', 'kind', 'ctype', 'vary', 'fields')}, '\nspecified:', case.get('spec'))
         if case.get('spec') and case['spec'].get('kind') != '?':
             cell = {'out': case['spec']}
